@@ -1,0 +1,15 @@
+//go:build !verif
+
+// Package verifhook provides named no-op points used by the verification
+// harness in /verif. Without the "verif" build tag At is an empty function
+// that the compiler inlines away.
+package verifhook
+
+// Enabled reports whether hooks are compiled in.
+const Enabled = false
+
+// Set does nothing without the verif build tag.
+func Set(h func(name string)) {}
+
+// At does nothing without the verif build tag.
+func At(name string) {}
